@@ -624,6 +624,19 @@ func sortArray(v any) (any, error) {
 		return v, nil
 	}
 
+	if len(a) == 1 {
+		// The comparison functions below are never called for a single
+		// element, so its type has to be checked here.
+		if _, ok := a[0].(string); !ok {
+			if _, ok := toDecimal(a[0]); !ok {
+				return nil, &InvalidTypeError{
+					got:  reflect.TypeOf(a[0]),
+					want: "number",
+				}
+			}
+		}
+	}
+
 	r := slices.Clone(a)
 
 	if _, ok := a[0].(string); ok {
